@@ -43,11 +43,24 @@ func listFiles(root string) []string {
 	return out
 }
 
+// magicOf: which format the file is - and that it is a whole package of that format and nothing else (a file that
+// starts like a package but does not decode to its end, e.g. with bytes of an older file after it, is "damaged")
 func magicOf(path string) string {
 	b, err := os.ReadFile(path)
 	if err != nil || len(b) < 8 {
 		return "unreadable"
 	}
+	m := magicPrefixOf(b)
+	if m == "unknown" {
+		return m
+	}
+	if _, err := decodePackage(m, b); err != nil {
+		return m + "-damaged"
+	}
+	return m
+}
+
+func magicPrefixOf(b []byte) string {
 	switch {
 	case bytes.HasPrefix(b, []byte("!<arch>\n")):
 		return "deb"
@@ -106,6 +119,8 @@ func genCLICases(w *caseWriter, bin string, rng *rand.Rand, st *pkgStats, tier s
 		targets := []tcase{
 			{"out/custom-name" + exts[format], "file"}, {"out/noext", "file"}, {"outdir", "dir"}, {"outdir/", "dir"}, {"", "empty"},
 			{"out/other.deb", "file"}, {"out/other.rpm", "file"}, {"out/name.with.dots" + exts[format], "file"}, {"out/UPPER.DEB", "file"},
+			// a dollar sign is a character like any other in a file name (the variable is not set)
+			{"out/cost$VERIF_UNSET_VARIABLE" + exts[format], "file"}, {"out/${VERIF_UNSET_VARIABLE}x" + exts[format], "file"},
 		}
 		for _, tc := range targets {
 			for _, flag := range []string{format, ""} {
@@ -113,6 +128,10 @@ func genCLICases(w *caseWriter, bin string, rng *rand.Rand, st *pkgStats, tier s
 				run := filepath.Join(work, fmt.Sprintf("run%d", n))
 				must(os.MkdirAll(filepath.Join(run, "out"), 0o755))
 				must(os.MkdirAll(filepath.Join(run, "outdir"), 0o755))
+				// the target already exists and is longer than the package: it is replaced, not written over
+				if tc.kind == "file" && flag == "" && format != "archlinux" && strings.HasSuffix(tc.target, exts[format]) {
+					must(os.WriteFile(filepath.Join(run, tc.target), bytes.Repeat([]byte("bytes of an older, longer file\n"), 40000), 0o644))
+				}
 				args := []string{"package", "-f", yamlPath}
 				if flag != "" {
 					args = append(args, "-p", flag)
